@@ -679,6 +679,7 @@ func checkReaderDelivery(w *World, r *Report, a *remoteAnchors, rule string) {
 
 // validIndexHelper recognises func(i intN, n int) bool { return i >= 0 && int(i) < n }.
 func (w *World) validIndexHelper(fn *ssa.Function) bool {
+	defer w.keepCtx()()
 	if fn == nil || fn.Blocks == nil || len(fn.Params) != 2 {
 		return false
 	}
